@@ -64,7 +64,13 @@ def top_calls(expr):
             continue
         if n.get("k") in ("Call", "MCall"):
             out.append(n)
-        if n.get("k") in ("Block", "Closure", "Match", "If", "Loop"):
+        if n.get("k") == "If":
+            st.append(n["c"])       # the condition is evaluated unconditionally; the branches are separate blocks
+            continue
+        if n.get("k") == "Match":
+            st.append(n["s"])
+            continue
+        if n.get("k") in ("Block", "Closure", "Loop"):
             continue
         st.extend(reversed(list(hir_children(n))))
     return out
